@@ -123,3 +123,39 @@ impl VerifFetcher {
         ok
     }
 }
+
+/// Read-only copies of both queues of a fetcher owned by a `SwarmDriver` (used by `event::verif`),
+/// sorted as in `VerifFetcher::{to_be_fetched, on_going_fetches}`.
+pub(crate) fn queues_of(f: &ReplicationFetcher) -> (Vec<PendingEntry>, Vec<OnGoingEntry>) {
+    let mut tbf: Vec<PendingEntry> = f
+        .to_be_fetched
+        .iter()
+        .map(|((k, t, h), d)| (k.clone(), t.clone(), *h, *d))
+        .collect();
+    tbf.sort_by_key(|(k, t, h, _)| (k.to_vec(), h.to_bytes(), format!("{t:?}")));
+    let mut ogf: Vec<OnGoingEntry> = f
+        .on_going_fetches
+        .iter()
+        .map(|((k, t), (h, d))| (k.clone(), t.clone(), *h, *d))
+        .collect();
+    ogf.sort_by_key(|(k, t, _, _)| (k.to_vec(), format!("{t:?}")));
+    (tbf, ogf)
+}
+
+/// `VerifFetcher::age` for a fetcher owned by a `SwarmDriver`.
+pub(crate) fn age_of(f: &mut ReplicationFetcher, d: Duration) -> bool {
+    let mut ok = true;
+    for deadline in f.to_be_fetched.values_mut() {
+        match deadline.checked_sub(d) {
+            Some(x) => *deadline = x,
+            None => ok = false,
+        }
+    }
+    for (_holder, deadline) in f.on_going_fetches.values_mut() {
+        match deadline.checked_sub(d) {
+            Some(x) => *deadline = x,
+            None => ok = false,
+        }
+    }
+    ok
+}
